@@ -87,6 +87,7 @@ def case_strategy(draw, max_ops=25):
         return {
             "ops": ops,
             "active": active,
+            "sysbase": draw(st.sampled_from([0x40000, 0xFFFFFFFE])),
             "sched": {"seed": draw(st.integers(1, 2**31)), "switch": draw(st.sampled_from([0.1, 0.5])), "pprob": draw(st.sampled_from([0.02, 0.1])), "hot": list(HOT)},
         }
     sched = draw(
@@ -104,7 +105,7 @@ def case_strategy(draw, max_ops=25):
             ),
         )
     )
-    return {"ops": ops, "active": active, "sched": sched}
+    return {"ops": ops, "active": active, "sched": sched, "sysbase": draw(st.sampled_from([0x40000, 0x40000, 0xFFFFFFFD, 0xFFFFFFFF, 0x7FFFFFFE]))}
 
 
 class Model:
@@ -126,13 +127,13 @@ def run_case(case, observe=None):
         st_, _ = rig.enable()
         if st_ != "done":
             return Failure("setup-failed", case, st_, "enabled")
-        sysc = [0x40000]
+        sysc = [case.get("sysbase", 0x40000)]  # the peer's system bytes; a base just below 2^32 makes them pass 0xFFFFFFFF and 0
         delivered = 0
         connected_once = False
         open_req = {}  # an application request left outstanding: {"sys", "box"}
 
         def nxt():
-            sysc[0] += 1
+            sysc[0] = (sysc[0] + 1) & 0xFFFFFFFF
             return sysc[0]
 
         def fail(bucket, i, obs, exp):
